@@ -25,7 +25,7 @@ RULE = ("decode(s, L, G, v, mode, check) on: pristine walks; the walk with its i
         ' Also: check lengths 33 and 40, checks passed as numpy.str_, Fortran-ordered accessors, one walk of 1100-1250 nt per shard (int<->str trap) and edit sequences on one accessor object overwritten in place (verdicts must follow the current content).')
 
 REASONS = ("branch", "single", "dead", "symbol")
-FOREIGN = ["N", "a", "c", "-", "U", " ", "É", "中", "AC", ""]
+FOREIGN = ["N", "a", "c", "-", "U", " ", "É", "中", "\n", "\t", "\r", "AC", ""]
 
 
 def setup(ctx):
@@ -171,8 +171,10 @@ def generate(ctx):
             strings.append(("random", gens.random_dna(rng, rng.randint(1, 15))))
             for _ in range(2):
                 p = rng.randrange(len(w) + 1)
-                f = rng.choice(FOREIGN[:8])
+                f = rng.choice(FOREIGN[:11])
                 strings.append(("foreign", w[:p] + f + w[p + 1:]))
+            for ws in ("\n", "\r\n", " ", "\t"):
+                strings.append(("foreign-tail", w + ws))          # a walk followed by white space is not a walk
             # walk into a dead vertex, if the graph has one reachable
             strings.append(("extended", w + gens.random_dna(rng, rng.randint(1, 6))))
             for tag, s in strings:
@@ -269,7 +271,7 @@ def floors(agg, tier):
         if c.get(mode + "|accepted", 0) < 200:
             out.append("%s accepted walks %d < 200" % (mode, c.get(mode + "|accepted", 0)))
     for name, need in (("edit sequences (same accessor object overwritten in place)", 100), ("check passed as numpy.str_", 500),
-                       ("string|long walk", 20)):
+                       ("string|long walk", 20), ("string|foreign-tail", 1000)):
         if c.get(name, 0) < need:
             out.append("%s observed %d < %d" % (name, c.get(name, 0), need))
     if not any(k.startswith("probe-hits:decode:raise") for k in agg["monitors"]):
